@@ -76,7 +76,10 @@ class C13(Check):
         knobs = draw_knobs_b(rng)
         knobs["REQUEST_THRESHOLD"] = rng.choice([40, 40, 2, 3])
         knobs["SEND_THRESHOLD"] = rng.choice([50, 50, 2, 3])
-        return {"apps_per_worker": apps_per_worker, "routes": routes, "reqs": reqs,
+        # the application tries to send on an association that is not open yet (the call returns None),
+        # the association opens afterwards: nothing of that may be remembered
+        early = rng.random() < 0.3
+        return {"apps_per_worker": apps_per_worker, "routes": routes, "reqs": reqs, "early_send": early,
                 "sched": draw_sched_b(rng), "knobs": knobs, "horizon": 40.0}
 
     def shrink(self, scn):
@@ -101,6 +104,10 @@ class C13(Check):
                 c = copy.deepcopy(scn)
                 del c["routes"][i]
                 yield c
+        if scn.get("early_send"):
+            c = copy.deepcopy(scn)
+            c["early_send"] = False
+            yield c
         for k, v in (("REQUEST_THRESHOLD", 40), ("SEND_THRESHOLD", 50)):
             if scn["knobs"].get(k) != v:
                 c = copy.deepcopy(scn)
@@ -178,6 +185,16 @@ class C13(Check):
             for ai, code in scn["routes"]:
                 app.route(application_id=APPS[ai][2].to_bytes(4, "big"),
                           command_code=code.to_bytes(3, "big"))(make_handler(ai, code))
+            if scn.get("early_send"):
+                from bromelia.avps import DestinationRealmAVP
+                for w_ in wb.workers:
+                    w_.is_open.clear()
+                for ai in set(r["app"] for r in scn["reqs"]):
+                    early_req = DiameterRequest(application_id=APPS[ai][2], command_code=316, avps=[
+                        SessionIdAVP(b"early;0;0"), OriginHostAVP(LOCAL_HOST), OriginRealmAVP(LOCAL_REALM),
+                        DestinationRealmAVP(PEER_REALM)])
+                    rec = wb.call("early_sender", app.send_message, early_req)
+                    sim.wait_until(lambda: rec["t1"] is not None, 2.0, poll=0.001)
             wb.start()
             # which stub serves which application
             stub_of = {}
